@@ -51,6 +51,19 @@ func feed(rb gowarc.WarcRecordBuilder, content []byte, how string) error {
 			}
 		}
 		return nil
+	case how == "mix2": // ReadFrom, Write, ReadFrom, Write: every order of the two ways of appending, across the spill
+		q := len(content) / 4
+		parts := [][]byte{content[:q], content[q : 2*q], content[2*q : 3*q], content[3*q:]}
+		for i, part := range parts {
+			if i%2 == 0 {
+				if _, err := rb.ReadFrom(&chunkReader{data: append([]byte{}, part...), style: "whole", r: newRng(uint64(i))}); err != nil {
+					return err
+				}
+			} else if _, err := rb.Write(part); err != nil {
+				return err
+			}
+		}
+		return nil
 	default: // mix: three parts, three methods
 		a, b := len(content)/3, 2*len(content)/3
 		if _, err := rb.Write(content[:a]); err != nil {
@@ -225,7 +238,7 @@ func kBuild(args []string) (string, string) {
 			}
 		}
 		// feeding manner and spill threshold must not matter
-		for _, alt := range []string{"ws", "rf-one", "rf-eofwith", "mix", "exact"} {
+		for _, alt := range []string{"ws", "rf-one", "rf-eofwith", "mix", "mix2", "exact"} {
 			o2 := o
 			o2.maxMem = []int{1, 7, 0}[len(alt)%3]
 			r2 := runBuild(o2, args[1], rt0, hdr, content, alt)
@@ -274,7 +287,12 @@ func kRoundtrip(args []string) (string, string) {
 	if sres.rec != nil {
 		sres.rec.Close()
 	}
-	bres := runBuild(bo, args[2], rt0, hdr, content, "w")
+	// how the content is fed to the builder (Write, WriteString, ReadFrom in several manners and mixes): invisible (C14)
+	how := "w"
+	if len(args) > 9 {
+		how = args[9]
+	}
+	bres := runBuild(bo, args[2], rt0, hdr, content, how)
 	if bres.rec == nil {
 		return fmt.Sprintf("berr=%s bfnd=%s", bres.errTag, showList(bres.fnd)), "ok"
 	}
@@ -450,7 +468,7 @@ func genC02(r *rng, n int, tier string, emit func(string, ...string)) {
 		}
 		stat("build-class", c.class)
 		stat("build-content", strconv.Itoa(len(c.content)/50*50))
-		emit("build", o.String(), c.ver, strconv.Itoa(c.rt0), pairsArg(c.hdr), hx(c.content), hxs(fixedId), oraclesForBuild(c), pick(sub, []string{"w", "ws", "rf-whole", "rf-one", "rf-half", "rf-eofwith", "mix", "exact"}))
+		emit("build", o.String(), c.ver, strconv.Itoa(c.rt0), pairsArg(c.hdr), hx(c.content), hxs(fixedId), oraclesForBuild(c), pick(sub, []string{"w", "ws", "rf-whole", "rf-one", "rf-half", "rf-eofwith", "mix", "mix2", "exact"}))
 	}
 }
 
@@ -466,7 +484,8 @@ func genC01(r *rng, n int, tier string, emit func(string, ...string)) {
 		po.adddig = false // compare the header the builder produced with the header parsed (DESIGN 5.0)
 		tail := pick(sub, []string{"", "", "WARC/1.1\r\n", "\r\n", "x"})
 		stat("rt-class", c.class)
-		emit("roundtrip", bo.String(), po.String(), c.ver, strconv.Itoa(c.rt0), pairsArg(c.hdr), hx(c.content), hxs(tail), oraclesForBuild(c), hxs(fixedId))
+		emit("roundtrip", bo.String(), po.String(), c.ver, strconv.Itoa(c.rt0), pairsArg(c.hdr), hx(c.content), hxs(tail), oraclesForBuild(c), hxs(fixedId),
+			pick(sub, []string{"w", "w", "ws", "rf-whole", "rf-one", "rf-half", "rf-eofwith", "mix", "mix2", "exact"}))
 	}
 }
 
